@@ -10,7 +10,7 @@ import WowSrp.Gen.Constants
 import WowSrp.Gen.Facts
 namespace WowSrp
 
-def expected_glueWrath : List (List String) := [["fnencrypt(&mutself,data:&mut[u8]) {self.encrypt.apply(data);}", "fnwrite_encrypted_server_header<W:Write>(&mutself,mutwrite:W,size:u32,opcode:u16,)->std::io::Result<()> {letbuf=self.encrypt_server_header(size,opcode);write.write_all(buf)?;Ok(())}", "fnencrypt(&mutself,data:&mut[u8]) {self.encrypt.apply(data);}", "fnwrite_encrypted_client_header<W:Write>(&mutself,mutwrite:W,size:u16,opcode:u32,)->std::io::Result<()> {letbuf=self.encrypt_client_header(size,opcode);write.write_all(&buf)?;Ok(())}", "fnset_large_header(v:u8)->u8 {v|0x80}", "fndecrypt(&mutself,data:&mut[u8]) {self.decrypt.apply(data);}", "fnread_and_decrypt_client_header<R:Read>(&mutself,mutreader:R,)->std::io::Result<ClientHeader> {letmutbuf=[0_u8;CLIENT_HEADER_LENGTHasusize];reader.read_exact(&mutbuf)?;Ok(self.decrypt_client_header(buf))}", "fndecrypt(&mutself,data:&mut[u8]) {self.decrypt.apply(data);}", "fndecrypt_large_server_header(&mutself,byte:u8)->ServerHeader {letmutbuf=[byte];self.decrypt.apply(&mutbuf);letbuf=[self.header[0],self.header[1],self.header[2],self.header[3],buf[0],];ServerHeader::from_large_array(buf)}", "fnread_and_decrypt_server_header<R:Read>(&mutself,mutreader:R,)->std::io::Result<ServerHeader> {letmutbuf=[0_u8;4];reader.read_exact(&mutbuf)?;Ok(matchself.attempt_decrypt_server_header(buf){WrathServerAttempt::Header(h)=>h,WrathServerAttempt::AdditionalByteRequired=>{letmutbuf=[0_u8;1];reader.read_exact(&mutbuf)?;self.decrypt_large_server_header(buf[0])}})}", "fnclear_large_header(v:u8)->u8 {v&0x7F}", "fnlarge_header(v:u8)->bool {v&0x80!=0}", "fnapply(&mutself,data:&mut[u8]) {self.inner.apply_keystream(data);}"]]
+def expected_glueWrath : List (List String) := [["fnencrypt(&mutself,data:&mut[u8]) {self.encrypt.apply(data);}", "fnwrite_encrypted_server_header<W:Write>(&mutself,mutwrite:W,size:u32,opcode:u16,)->std::io::Result<()> {letbuf=self.encrypt_server_header(size,opcode);write.write_all(buf)?;Ok(())}", "fnnew(session_key:[u8;SESSION_KEY_LENGTHasusize])->Self {Self{encrypt:InnerCrypto::new(session_key,&R),server_header:[0_u8;SERVER_HEADER_MAXIMUM_LENGTHasusize],}}", "fnencrypt(&mutself,data:&mut[u8]) {self.encrypt.apply(data);}", "fnwrite_encrypted_client_header<W:Write>(&mutself,mutwrite:W,size:u16,opcode:u32,)->std::io::Result<()> {letbuf=self.encrypt_client_header(size,opcode);write.write_all(&buf)?;Ok(())}", "fnnew(session_key:[u8;SESSION_KEY_LENGTHasusize])->Self {Self{encrypt:InnerCrypto::new(session_key,&S),}}", "fnset_large_header(v:u8)->u8 {v|0x80}", "fndecrypt(&mutself,data:&mut[u8]) {self.decrypt.apply(data);}", "fnread_and_decrypt_client_header<R:Read>(&mutself,mutreader:R,)->std::io::Result<ClientHeader> {letmutbuf=[0_u8;CLIENT_HEADER_LENGTHasusize];reader.read_exact(&mutbuf)?;Ok(self.decrypt_client_header(buf))}", "fndecrypt_client_header(&mutself,mutdata:[u8;CLIENT_HEADER_LENGTHasusize],)->ClientHeader {self.decrypt(&mutdata);ClientHeader::from_array(data)}", "fnnew(session_key:[u8;SESSION_KEY_LENGTHasusize])->Self {Self{decrypt:InnerCrypto::new(session_key,&S),}}", "fndecrypt(&mutself,data:&mut[u8]) {self.decrypt.apply(data);}", "fnattempt_decrypt_server_header(&mutself,mutbuf:[u8;SERVER_HEADER_MINIMUM_LENGTHasusize],)->WrathServerAttempt {self.decrypt.apply(&mutbuf);iflarge_header(buf[0]){self.header[0]=buf[0];self.header[1]=buf[1];self.header[2]=buf[2];self.header[3]=buf[3];WrathServerAttempt::AdditionalByteRequired}else{WrathServerAttempt::Header(ServerHeader::from_small_array(buf))}}", "fndecrypt_large_server_header(&mutself,byte:u8)->ServerHeader {letmutbuf=[byte];self.decrypt.apply(&mutbuf);letbuf=[self.header[0],self.header[1],self.header[2],self.header[3],buf[0],];ServerHeader::from_large_array(buf)}", "fnread_and_decrypt_server_header<R:Read>(&mutself,mutreader:R,)->std::io::Result<ServerHeader> {letmutbuf=[0_u8;4];reader.read_exact(&mutbuf)?;Ok(matchself.attempt_decrypt_server_header(buf){WrathServerAttempt::Header(h)=>h,WrathServerAttempt::AdditionalByteRequired=>{letmutbuf=[0_u8;1];reader.read_exact(&mutbuf)?;self.decrypt_large_server_header(buf[0])}})}", "fnnew(session_key:[u8;SESSION_KEY_LENGTHasusize])->Self {Self{decrypt:InnerCrypto::new(session_key,&R),header:[0_u8;SERVER_HEADER_MINIMUM_LENGTHasusize],}}", "fnclear_large_header(v:u8)->u8 {v&0x7F}", "fnlarge_header(v:u8)->bool {v&0x80!=0}", "fnapply(&mutself,data:&mut[u8]) {self.inner.apply_keystream(data);}", "fnnew(session_key:[u8;SESSION_KEY_LENGTHasusize],key:&[u8;KEY_LENGTHasusize],)->Self {letmuthmac:Hmac<Sha1>=Hmac::<Sha1>::new_from_slice(key.as_slice()).unwrap();hmac.update(&session_key);lethmac=hmac.finalize();letmutinner=Rc4::new(hmac.into_bytes().as_slice());letmutpad_data=[0_u8;1024];inner.apply_keystream(&mutpad_data);Self{inner}}"]]
 
 theorem glueWrath_ok : Gen.glueWrath = expected_glueWrath := by decide +kernel
 
